@@ -1037,7 +1037,7 @@ def diagnose_unsatisfiable(chk, op, key, impl):
 
 def labels_real(chk, variant):
     rng = chk.rng
-    n_ops, n_draws = chk.budget(10, 220), chk.budget(10, 20)
+    n_ops, n_draws = chk.budget(10, 90), chk.budget(10, 15)
     judged = []
     reqs, obs = [], []
     for i in range(n_ops):
